@@ -178,10 +178,15 @@ func (t *c12Tree) toCase() c12Case {
 			c.Files[f.path] = f.raw
 		}
 	}
+	for _, b := range c.Files {
+		if bytes.Contains(b, []byte("openapi")) {
+			c.Fresh = true // a custom schema stays in the worker's global state
+		}
+	}
 	return c
 }
 
-type c12Gen struct{}
+type c12Gen struct{ forceMyKind bool }
 
 func newC12Gen() *c12Gen { return &c12Gen{} }
 
@@ -452,7 +457,7 @@ func (gen *c12Gen) genResources(g *Rng, suffix string, useVars bool) ([]*yaml.No
 		n := orStr(ns, "ns1")
 		add("v1", "Namespace", n, "metadata", ym("name", ys(n)))
 	}
-	if g.Chance(20) {
+	if g.Chance(20) || gen.forceMyKind {
 		n := "my" + suffix
 		add("example.com/v1", "MyKind", n, "metadata", meta(n, ns, nil, g),
 			"spec", ym("replicas", yi(1), "image", ys("nginx:1"), "list", yl(ym("name", ys("a"), "value", ys("1")), ym("name", ys("b"), "value", ys("2"))),
@@ -499,8 +504,33 @@ var c12FieldPaths = []string{
 }
 
 // kustomization of one layer
-func (gen *c12Gen) genKustomization(g *Rng, dir string, resources []string, objs []c12Obj, layer int, extra *[]*c12File, useVars bool) *yaml.Node {
+func (gen *c12Gen) genKustomization(g *Rng, dir string, resources []string, objs []c12Obj, layer int, extra *[]*c12File, useVars bool, useOpenAPI bool) *yaml.Node {
 	k := ym()
+	if useOpenAPI {
+		item := ym("type", ys("object"), "properties", ym("name", ym("type", ys("string")), "value", ym("type", ys("string"))))
+		mykind := ym("type", ys("object"),
+			"x-kubernetes-group-version-kind", yl(ym("group", ys("example.com"), "kind", ys("MyKind"), "version", ys("v1"))),
+			"properties", ym(
+				"apiVersion", ym("type", ys("string")), "kind", ym("type", ys("string")),
+				"metadata", ym("$ref", ys("#/definitions/io.k8s.apimachinery.pkg.apis.meta.v1.ObjectMeta")),
+				"spec", ym("type", ys("object"), "properties", ym(
+					"replicas", ym("type", ys("integer")),
+					"image", ym("type", ys("string")),
+					"list", ym("type", ys("array"), "items", ym("$ref", ys("#/definitions/com.example.v1.Item")),
+						"x-kubernetes-patch-merge-key", ys("name"), "x-kubernetes-patch-strategy", ys(g.Pick([]string{"merge", "replace", "merge,retainKeys"}))),
+					"ref", ym("type", ys("object"), "properties", ym("name", ym("type", ys("string"))))))))
+		if g.Chance(30) {
+			mapSet(mapGet(mapGet(mapGet(mykind, "properties"), "spec"), "properties"), "list",
+				ym("type", ys("array"), "items", ym("$ref", ys("#/definitions/com.example.v1.Item")),
+					"x-kubernetes-list-map-keys", ystrs("name"), "x-kubernetes-list-type", ys("map"), "x-kubernetes-patch-strategy", ys("merge")))
+		}
+		schema := ym("swagger", ys("2.0"), "info", ym("title", ys("t"), "version", ys("v1")), "paths", ym(),
+			"definitions", ym("com.example.v1.MyKind", mykind, "com.example.v1.Item", item,
+				"io.k8s.apimachinery.pkg.apis.meta.v1.ObjectMeta", ym("type", ys("object"), "properties", ym("name", ym("type", ys("string")), "namespace", ym("type", ys("string")),
+					"labels", ym("type", ys("object"), "additionalProperties", ym("type", ys("string"))), "annotations", ym("type", ys("object"), "additionalProperties", ym("type", ys("string")))))))
+		*extra = append(*extra, &c12File{path: dir + "/schema.yaml", docs: []*yaml.Node{schema}, role: "config"})
+		mapSet(k, "openapi", ym("path", ys("schema.yaml")))
+	}
 	if g.Chance(60) {
 		mapSet(k, "apiVersion", ys("kustomize.config.k8s.io/v1beta1"))
 		mapSet(k, "kind", ys("Kustomization"))
@@ -560,6 +590,8 @@ func (gen *c12Gen) genKustomization(g *Rng, dir string, resources []string, objs
 			if g.Chance(30) {
 				mapSet(mapGet(d, "spec"), "replicas", yi(7))
 			}
+		case "MyKind":
+			mapSet(d, "spec", ym("list", yl(ym("name", ys("a"), "value", ys("patched")), ym("name", ys("c"), "value", ys("3")))))
 		case "ConfigMap":
 			mapSet(d, "data", ymss(map[string]string{"patched": "yes"}))
 		case "Service":
@@ -864,6 +896,9 @@ func (gen *c12Gen) tree(g *Rng) *c12Tree {
 	var allObjs []c12Obj
 	dirs := []string{"/t/base", "/t/mid", "/t/top"}
 	useVars := g.Chance(15)
+	useOpenAPI := g.Chance(6)
+	gen.forceMyKind = useOpenAPI
+	defer func() { gen.forceMyKind = false }()
 	for l := 0; l < layers; l++ {
 		dir := dirs[l]
 		if l == layers-1 {
@@ -914,7 +949,7 @@ func (gen *c12Gen) tree(g *Rng) *c12Tree {
 			t.files = append(t.files, &c12File{path: cdir + "/kustomization.yaml", docs: []*yaml.Node{ck}, role: "kustomization"})
 		}
 		var extra []*c12File
-		k := gen.genKustomization(g, dir, resources, allObjs, l, &extra, useVars && l == layers-1)
+		k := gen.genKustomization(g, dir, resources, allObjs, l, &extra, useVars && l == layers-1, useOpenAPI && l == layers-1)
 		if l > 0 {
 			for _, f := range t.files {
 				if f.path == fmt.Sprintf("/t/comp%d/kustomization.yaml", l) {
@@ -1031,6 +1066,43 @@ func (gen *c12Gen) mutateOnce(g *Rng, t *c12Tree) string {
 	// bias: avoid replacing a whole document most of the time
 	if ref.parent == nil && len(refs) > 1 && g.Chance(85) {
 		ref = refs[1+g.Intn(len(refs)-1)]
+	}
+	// ill-typed object metadata is where the build keeps its own book-keeping: aim there now and then
+	if g.Chance(7) {
+		var cands []nodeRef
+		for _, r := range refs {
+			if strings.HasSuffix(r.path, "/metadata") || strings.HasSuffix(r.path, "/metadata/labels") || strings.HasSuffix(r.path, "/metadata/annotations") ||
+				strings.HasSuffix(r.path, "/metadata/name") || strings.HasSuffix(r.path, "/metadata/namespace") || strings.HasSuffix(r.path, "/kind") || strings.HasSuffix(r.path, "/apiVersion") {
+				cands = append(cands, r)
+			}
+		}
+		if len(cands) > 0 {
+			r := cands[g.Intn(len(cands))]
+			var nn *yaml.Node
+			switch g.Intn(7) {
+			case 0:
+				nn = yl(ys("a"), ys("b"))
+			case 1:
+				nn = yl(ys("a"))
+			case 2:
+				nn = yl(ym(), ym())
+			case 3:
+				nn = ym("k", yl(ys("v")))
+			case 4:
+				nn = ym("k", ym("x", ys("y")))
+			case 5:
+				nn = ym("k", ynull(), "5", yi(5), "true", yb(true))
+			default:
+				nn = junkNode(g, 2)
+			}
+			if r.parent != nil && r.parent.Kind == yaml.MappingNode && g.Chance(40) {
+				// or add the missing sibling
+				r.parent.Content = append(r.parent.Content, ys(g.Pick([]string{"labels", "annotations"})), nn)
+				return fmt.Sprintf("metadata:add @%s:%d%s", f.path, r.doc, r.path)
+			}
+			replaceRef(r, nn)
+			return fmt.Sprintf("metadata:retype @%s:%d%s", f.path, r.doc, r.path)
+		}
 	}
 	where := fmt.Sprintf("@%s:%d%s", f.path, ref.doc, ref.path)
 	n := ref.node
